@@ -42,7 +42,7 @@ Ltac dmatch :=
          | |- context [match ?x with _ => _ end] => destruct x eqn:?
          | |- context [if ?x then _ else _] => destruct x eqn:?
          end.
-Ltac prj := intros; unfold store, abort, close_out, emit, set_rt, drain; dmatch; cbn; dmatch; try reflexivity.
+Ltac prj := intros; unfold raise_panic, store, abort, close_out, emit, set_rt, drain; dmatch; cbn; dmatch; try reflexivity.
 
 Lemma store_h_self (s : hstate) (m : msg) : h_self (store s m) = h_self s.
 Proof. prj. Qed.
@@ -294,6 +294,91 @@ Lemma drain_h_pending (s : hstate) (k : nat) : h_pending (drain k s) = h_pending
 Proof. reflexivity. Qed.
 #[export] Hint Rewrite drain_h_pending : hdb.
 
+Lemma raise_panic_h_self (s : hstate) : h_self (raise_panic s) = h_self s.
+Proof. prj. Qed.
+#[export] Hint Rewrite raise_panic_h_self : hdb.
+Lemma raise_panic_h_n (s : hstate) : h_n (raise_panic s) = h_n s.
+Proof. prj. Qed.
+#[export] Hint Rewrite raise_panic_h_n : hdb.
+Lemma raise_panic_h_ssid (s : hstate) : h_ssid (raise_panic s) = h_ssid s.
+Proof. prj. Qed.
+#[export] Hint Rewrite raise_panic_h_ssid : hdb.
+Lemma raise_panic_h_proto (s : hstate) : h_proto (raise_panic s) = h_proto s.
+Proof. prj. Qed.
+#[export] Hint Rewrite raise_panic_h_proto : hdb.
+Lemma raise_panic_h_shape (s : hstate) : h_shape (raise_panic s) = h_shape s.
+Proof. prj. Qed.
+#[export] Hint Rewrite raise_panic_h_shape : hdb.
+Lemma raise_panic_h_cur (s : hstate) : h_cur (raise_panic s) = h_cur s.
+Proof. prj. Qed.
+#[export] Hint Rewrite raise_panic_h_cur : hdb.
+Lemma raise_panic_h_reached (s : hstate) : h_reached (raise_panic s) = h_reached s.
+Proof. prj. Qed.
+#[export] Hint Rewrite raise_panic_h_reached : hdb.
+Lemma raise_panic_h_qb (s : hstate) : h_qb (raise_panic s) = h_qb s.
+Proof. prj. Qed.
+#[export] Hint Rewrite raise_panic_h_qb : hdb.
+Lemma raise_panic_h_qp (s : hstate) : h_qp (raise_panic s) = h_qp s.
+Proof. prj. Qed.
+#[export] Hint Rewrite raise_panic_h_qp : hdb.
+Lemma raise_panic_h_hashes (s : hstate) : h_hashes (raise_panic s) = h_hashes s.
+Proof. prj. Qed.
+#[export] Hint Rewrite raise_panic_h_hashes : hdb.
+Lemma raise_panic_h_err (s : hstate) : h_err (raise_panic s) = h_err s.
+Proof. prj. Qed.
+#[export] Hint Rewrite raise_panic_h_err : hdb.
+Lemma raise_panic_h_res (s : hstate) : h_res (raise_panic s) = h_res s.
+Proof. prj. Qed.
+#[export] Hint Rewrite raise_panic_h_res : hdb.
+Lemma raise_panic_h_out (s : hstate) : h_out (raise_panic s) = h_out s.
+Proof. prj. Qed.
+#[export] Hint Rewrite raise_panic_h_out : hdb.
+Lemma raise_panic_h_pending (s : hstate) : h_pending (raise_panic s) = h_pending s.
+Proof. prj. Qed.
+#[export] Hint Rewrite raise_panic_h_pending : hdb.
+Lemma raise_panic_h_closes (s : hstate) : h_closes (raise_panic s) = h_closes s.
+Proof. prj. Qed.
+#[export] Hint Rewrite raise_panic_h_closes : hdb.
+Lemma raise_panic_h_rt (s : hstate) : h_rt (raise_panic s) = Panicked 3.
+Proof. reflexivity. Qed.
+#[export] Hint Rewrite raise_panic_h_rt : hdb.
+Lemma set_rt_h_rt (s : hstate) (rt : runtime) : h_rt (set_rt s rt) = rt.
+Proof. reflexivity. Qed.
+#[export] Hint Rewrite set_rt_h_rt : hdb.
+Lemma recover_abort_h_self (s : hstate) : h_self (recover_abort s) = h_self s.
+Proof. unfold recover_abort. dmatch; autorewrite with hdb; reflexivity. Qed.
+#[export] Hint Rewrite recover_abort_h_self : hdb.
+Lemma recover_abort_h_n (s : hstate) : h_n (recover_abort s) = h_n s.
+Proof. unfold recover_abort. dmatch; autorewrite with hdb; reflexivity. Qed.
+#[export] Hint Rewrite recover_abort_h_n : hdb.
+Lemma recover_abort_h_ssid (s : hstate) : h_ssid (recover_abort s) = h_ssid s.
+Proof. unfold recover_abort. dmatch; autorewrite with hdb; reflexivity. Qed.
+#[export] Hint Rewrite recover_abort_h_ssid : hdb.
+Lemma recover_abort_h_proto (s : hstate) : h_proto (recover_abort s) = h_proto s.
+Proof. unfold recover_abort. dmatch; autorewrite with hdb; reflexivity. Qed.
+#[export] Hint Rewrite recover_abort_h_proto : hdb.
+Lemma recover_abort_h_shape (s : hstate) : h_shape (recover_abort s) = h_shape s.
+Proof. unfold recover_abort. dmatch; autorewrite with hdb; reflexivity. Qed.
+#[export] Hint Rewrite recover_abort_h_shape : hdb.
+Lemma recover_abort_h_cur (s : hstate) : h_cur (recover_abort s) = h_cur s.
+Proof. unfold recover_abort. dmatch; autorewrite with hdb; reflexivity. Qed.
+#[export] Hint Rewrite recover_abort_h_cur : hdb.
+Lemma recover_abort_h_reached (s : hstate) : h_reached (recover_abort s) = h_reached s.
+Proof. unfold recover_abort. dmatch; autorewrite with hdb; reflexivity. Qed.
+#[export] Hint Rewrite recover_abort_h_reached : hdb.
+Lemma recover_abort_h_qb (s : hstate) : h_qb (recover_abort s) = h_qb s.
+Proof. unfold recover_abort. dmatch; autorewrite with hdb; reflexivity. Qed.
+#[export] Hint Rewrite recover_abort_h_qb : hdb.
+Lemma recover_abort_h_qp (s : hstate) : h_qp (recover_abort s) = h_qp s.
+Proof. unfold recover_abort. dmatch; autorewrite with hdb; reflexivity. Qed.
+#[export] Hint Rewrite recover_abort_h_qp : hdb.
+Lemma recover_abort_h_hashes (s : hstate) : h_hashes (recover_abort s) = h_hashes s.
+Proof. unfold recover_abort. dmatch; autorewrite with hdb; reflexivity. Qed.
+#[export] Hint Rewrite recover_abort_h_hashes : hdb.
+Lemma recover_abort_h_res (s : hstate) : h_res (recover_abort s) = h_res s.
+Proof. unfold recover_abort. dmatch; autorewrite with hdb; reflexivity. Qed.
+#[export] Hint Rewrite recover_abort_h_res : hdb.
+
 (* ------------------------------------------------------------------ *)
 (* received_all / emit_all frames; one-round step of finalize           *)
 (* ------------------------------------------------------------------ *)
@@ -468,6 +553,7 @@ Definition fin_step (vh : nat -> list N -> N) (ofp : nat -> N) (s : hstate) : fs
       let s1 := snd (received_all vh s) in
       if negb (fst (received_all vh s)) then FDone s1
       else if negb (check_broadcast_hash s1) then FDone (abort s1 (Some ([], EBroadcastHash)))
+      else if fin_panics s1 then FDone (raise_panic s1)
       else
         let s2 := emit_all ofp s1 (round_outputs s1 (h_cur s1) (cur_bv s1)) in
         match h_rt s2 with
@@ -479,6 +565,7 @@ Definition fin_step (vh : nat -> list N -> N) (ofp : nat -> N) (s : hstate) : fs
               if nr =? 0 then FDone (abort (set_res s3) None)
               else match first_bad s3 nr with
                    | Some (_, VHash) => FDone (abort s3 (Some ([], EBroadcastHash)))
+                   | Some (_, VPanic) => FDone (raise_panic s3)
                    | Some (j, _) => FDone (abort s3 (Some ([j], EVerify)))
                    | None => FCont s3
                    end
@@ -496,6 +583,7 @@ Proof.
   destruct (received_all vh s) as [all s1]. cbn [fst snd].
   destruct (negb all); try reflexivity.
   destruct (negb (check_broadcast_hash s1)); try reflexivity.
+  destruct (fin_panics s1); try reflexivity.
   unfold cur_bv, next_round.
   rewrite emit_all_h_shape.
   match goal with |- context [h_rt (emit_all ofp s1 ?l)] => destruct (h_rt (emit_all ofp s1 l)) end; try reflexivity.
@@ -595,38 +683,84 @@ Proof.
   - rewrite abort_not_running by congruence. left. unfold nonterm_ok. rewrite Hr. auto.
 Qed.
 
+(* a panic of the round code is raised only while the session is running and the channel is open *)
+Definition nonterm_raised (s : hstate) : Prop :=
+  h_closes s = 0 /\ terminal s = false /\ h_rt s = Panicked 3.
+Definition life_or_raised (s : hstate) : Prop := life_ok s \/ nonterm_raised s.
+
+Lemma raise_nonterm s : nonterm_ok s -> nonterm_raised (raise_panic s).
+Proof.
+  intros (A & B & C). unfold nonterm_raised. autorewrite with hdb.
+  rewrite (terminal_eq s) by (autorewrite with hdb; reflexivity). auto.
+Qed.
+
 Lemma fin_step_life vh ofp s :
-  nonterm_ok s -> match fin_step vh ofp s with FDone s' => life_ok s' | FCont s3 => nonterm_ok s3 end.
+  nonterm_ok s -> match fin_step vh ofp s with FDone s' => life_or_raised s' | FCont s3 => nonterm_ok s3 end.
 Proof.
   intro H. unfold fin_step.
-  destruct (h_rt s) eqn:Hr; try (left; exact H).
-  destruct (h_cur s =? 0); [left; exact H|].
+  destruct (h_rt s) eqn:Hr; try (left; left; exact H).
+  destruct (h_cur s =? 0); [left; left; exact H|].
   pose proof (nonterm_ra vh s H) as H1.
   set (s1 := snd (received_all vh s)) in *.
-  destruct (negb (fst (received_all vh s))); [left; exact H1|].
-  destruct (negb (check_broadcast_hash s1)); [apply life_abort_some; exact H1|].
+  destruct (negb (fst (received_all vh s))); [left; left; exact H1|].
+  destruct (negb (check_broadcast_hash s1)); [left; apply life_abort_some; exact H1|].
+  destruct (fin_panics s1); [right; apply raise_nonterm; exact H1|].
   pose proof (nonterm_emit_all ofp s1 (round_outputs s1 (h_cur s1) (cur_bv s1)) H1) as H2.
   set (s2 := emit_all ofp s1 _) in *.
-  destruct (h_rt s2) eqn:Hr2; try (left; exact H2).
-  destruct (existsb _ _); [left; exact H2|].
+  destruct (h_rt s2) eqn:Hr2; try (left; left; exact H2).
+  destruct (existsb _ _); [left; left; exact H2|].
   assert (H3 : nonterm_ok (advance s2 (next_round s1))).
   { revert H2. apply nonterm_frame; reflexivity. }
   destruct (next_round s1 =? 0).
   - destruct H3 as (A & B & C).
     destruct (abort_none_running (set_res (advance s2 (next_round s1)))) as (E & Cl & R & _); [exact Hr2|exact A|].
-    right. unfold term_ok. rewrite Cl, R. unfold terminal. rewrite E. autorewrite with hdb.
+    left. right. unfold term_ok. rewrite Cl, R. unfold terminal. rewrite E. autorewrite with hdb.
     apply terminal_false in B as [B _]. unfold set_res, advance in *. prjs. prjs in B. rewrite B. cbn. auto.
-  - destruct (first_bad _ _) as [[j []]|]; try (apply life_abort_some; exact H3); exact H3.
+  - destruct (first_bad _ _) as [[j []]|];
+      [left; apply life_abort_some; exact H3 | left; apply life_abort_some; exact H3
+      | left; apply life_abort_some; exact H3 | right; apply raise_nonterm; exact H3 | exact H3].
 Qed.
 
-Lemma finalize_life vh ofp f s : nonterm_ok s -> life_ok (finalize vh ofp f s).
+Lemma finalize_life_raised vh ofp f s : nonterm_ok s -> life_or_raised (finalize vh ofp f s).
 Proof.
-  apply (finalize_ind vh ofp nonterm_ok life_ok); [intros; left; assumption|].
+  apply (finalize_ind vh ofp nonterm_ok life_or_raised); [intros; left; left; assumption|].
   apply fin_step_life.
 Qed.
 
 Lemma life_not_terminal s : life_ok s -> terminal s = false -> nonterm_ok s.
 Proof. intros [H|(A & B & C)] T; [exact H|congruence]. Qed.
+
+Lemma life_not_panicked s : life_ok s -> is_panicked (h_rt s) = false.
+Proof. intros [(_ & _ & C)|(_ & _ & C & _)]; exact C. Qed.
+
+(* the deferred recover: identity unless the body panicked *)
+Lemma recover_abort_id s : is_panicked (h_rt s) = false -> recover_abort s = s.
+Proof. unfold recover_abort. destruct (h_rt s); [reflexivity|discriminate|reflexivity]. Qed.
+
+Lemma recover_abort_running s : h_rt s = Running -> recover_abort s = s.
+Proof. intro H. apply recover_abort_id. rewrite H. reflexivity. Qed.
+
+Lemma set_rt_running_nonterm s : nonterm_raised s -> nonterm_ok (set_rt s Running).
+Proof.
+  intros (A & B & C). unfold nonterm_ok. autorewrite with hdb.
+  rewrite (terminal_eq s) by (autorewrite with hdb; reflexivity). auto.
+Qed.
+
+Lemma recover_raised s :
+  terminal s = false -> is_panicked (h_rt s) = true ->
+  recover_abort s = abort (set_rt s Running) (Some ([], EPanic)).
+Proof.
+  intros B C. unfold recover_abort. destruct (h_rt s); try discriminate. cbv zeta.
+  rewrite (terminal_eq s (set_rt s Running)) by (autorewrite with hdb; reflexivity). rewrite B. reflexivity.
+Qed.
+
+Lemma recover_life s : life_or_raised s -> life_ok (recover_abort s).
+Proof.
+  intros [L|R].
+  - rewrite recover_abort_id; [exact L|apply life_not_panicked; exact L].
+  - rewrite recover_raised; [|apply R|destruct R as (_ & _ & ->); reflexivity].
+    apply life_abort_some, set_rt_running_nonterm, R.
+Qed.
 
 Lemma accept_guard_terminal s m :
   (negb (can_accept s m) || (match h_err s with Some _ => true | None => false end) || h_res s || duplicate s m) = false ->
@@ -637,17 +771,157 @@ Proof.
   unfold terminal. rewrite E, R. auto.
 Qed.
 
-Lemma accept_life vh ofp s m : life_ok s -> life_ok (accept vh ofp s m).
+Lemma accept_body_life vh ofp s m : life_ok s -> life_or_raised (accept_body vh ofp s m).
 Proof.
-  intro H. unfold accept.
-  destruct (h_rt s) eqn:Hr; try exact H.
-  destruct (_ || _) eqn:G; [exact H|].
+  intro H. unfold accept_body.
+  destruct (h_rt s) eqn:Hr; try (left; exact H).
+  destruct (_ || _) eqn:G; [left; exact H|].
   apply accept_guard_terminal in G as (C & T & D).
   pose proof (life_not_terminal s H T) as Hn.
-  destruct (m_round m =? 0); [apply life_abort_some; exact Hn|].
+  destruct (m_round m =? 0); [left; apply life_abort_some; exact Hn|].
   pose proof (nonterm_store s m Hn) as H1.
-  destruct (negb _); [left; exact H1|].
-  destruct (if m_bcast m then _ else _); [apply finalize_life; exact H1|apply life_abort_some; exact H1..].
+  destruct (negb _); [left; left; exact H1|].
+  destruct (if m_bcast m then _ else _);
+    [apply finalize_life_raised; exact H1|left; apply life_abort_some; exact H1..|right; apply raise_nonterm; exact H1].
+Qed.
+
+Lemma accept_life vh ofp s m : life_ok s -> life_ok (accept vh ofp s m).
+Proof.
+  intro H. unfold accept. destruct (h_rt s); try exact H.
+  apply recover_life, accept_body_life, H.
+Qed.
+
+(* accept is the body whenever the body does not panic; in particular when it changes nothing *)
+Lemma accept_of_body vh ofp s m :
+  is_panicked (h_rt (accept_body vh ofp s m)) = false -> accept vh ofp s m = accept_body vh ofp s m.
+Proof.
+  intro H. unfold accept. destruct (h_rt s) eqn:Hr.
+  - apply recover_abort_id, H.
+  - unfold accept_body. rewrite Hr. reflexivity.
+  - unfold accept_body. rewrite Hr. reflexivity.
+Qed.
+
+Lemma accept_body_id_accept vh ofp s m : accept_body vh ofp s m = s -> accept vh ofp s m = s.
+Proof.
+  intro H. unfold accept. destruct (h_rt s) eqn:Hr; try reflexivity.
+  rewrite H. apply recover_abort_running, Hr.
+Qed.
+
+(* ------------------------------------------------------------------ *)
+(* Calm states: no queued message makes the round code panic            *)
+(* ------------------------------------------------------------------ *)
+Definition calm_q (q : list (nat * party * msg)) : Prop := forall r j m, In (r, j, m) q -> m_panic m = NoPanic.
+Definition calm (s : hstate) : Prop := calm_q (h_qb s) /\ calm_q (h_qp s).
+
+Lemma qget_In q r j m : qget q r j = Some m -> In (r, j, m) q.
+Proof.
+  induction q as [|[[r' j'] m'] q IH]; cbn [qget]; [discriminate|].
+  destruct ((r' =? r) && (j' =? j)) eqn:E.
+  - apply andb_true_iff in E as [E1 E2]. apply Nat.eqb_eq in E1, E2. subst.
+    intro H; inversion H; subst. left; reflexivity.
+  - intro H. right. apply IH, H.
+Qed.
+
+Lemma calm_q_existsb q r :
+  calm_q q -> existsb (fun e => match e with (r', _, m) => (r' =? r) && panics_finalize m end) q = false.
+Proof.
+  intro C. induction q as [|[[r' j'] m'] q IH]; [reflexivity|]. cbn [existsb].
+  rewrite IH by (intros r0 j0 m0 Hin; apply (C r0 j0 m0); right; exact Hin).
+  unfold panics_finalize. rewrite (C r' j' m') by (left; reflexivity). rewrite andb_false_r. reflexivity.
+Qed.
+
+Lemma calm_fin_panics s : calm s -> fin_panics s = false.
+Proof.
+  intros [A B]. unfold fin_panics. cbv zeta.
+  rewrite (calm_q_existsb _ _ A), (calm_q_existsb _ _ B), !andb_false_r. reflexivity.
+Qed.
+
+Lemma calm_verify_p2p s p : m_panic p = NoPanic -> verify_p2p s p <> VPanic.
+Proof. intro H. unfold verify_p2p, panics_verify. rewrite H. dmatch; discriminate. Qed.
+
+Lemma calm_verify_bcast s m : calm s -> m_panic m = NoPanic -> verify_bcast s m <> VPanic.
+Proof.
+  intros [_ C] H. unfold verify_bcast, panics_verify. rewrite H.
+  destruct (negb (existsb _ _)); [discriminate|].
+  destruct (negb (same_view s m)); [discriminate|].
+  destruct (negb (sh_bcast _ _)); [discriminate|].
+  destruct (negb (m_valid m)); [discriminate|].
+  destruct (sh_p2p _ _); try discriminate;
+    (destruct (qget (h_qp s) (m_round m) (m_from m)) as [p|] eqn:Q; [|discriminate];
+     apply calm_verify_p2p; apply qget_In in Q; eapply C; exact Q).
+Qed.
+
+Lemma calm_first_bad s r j : calm s -> first_bad s r <> Some (j, VPanic).
+Proof.
+  intros C H. unfold first_bad in H. destruct (find _ _) as [j0|]; [|discriminate].
+  injection H as H1 H2. subst j0. revert H2. unfold queued_verdict.
+  destruct (sh_bcast (h_shape s) r).
+  - destruct (qget (h_qb s) r j) as [x|] eqn:Q; [|discriminate].
+    apply calm_verify_bcast; [exact C|]. apply qget_In in Q. destruct C as [Cb _]. eapply Cb; exact Q.
+  - destruct (qget (h_qp s) r j) as [x|] eqn:Q; [|discriminate].
+    apply calm_verify_p2p. apply qget_In in Q. destruct C as [_ Cp]. eapply Cp; exact Q.
+Qed.
+
+Lemma calm_frame s s' : h_qb s' = h_qb s -> h_qp s' = h_qp s -> calm s -> calm s'.
+Proof. unfold calm. intros -> ->. auto. Qed.
+
+Lemma calm_store s m : m_panic m = NoPanic -> calm s -> calm (store s m).
+Proof.
+  intros H [A B]. unfold calm, store. destruct (negb _); [split; assumption|].
+  destruct (qget (queue_of s m) _ _); [split; assumption|].
+  destruct (m_bcast m); prjs; split; try assumption;
+    (intros r j x [E|Hin]; [inversion E; subst; exact H|eauto]).
+Qed.
+
+Lemma calm_emit_all ofp l : forall s, calm s -> calm (emit_all ofp s l).
+Proof.
+  induction l as [|o l IH]; intros s C; cbn [emit_all]; [exact C|]. apply IH.
+  apply (calm_frame (if o_bcast o then store s (own_bcast_msg ofp s o) else s)); [autorewrite with hdb; reflexivity..|].
+  destruct (o_bcast o); [apply calm_store; [reflexivity|exact C]|exact C].
+Qed.
+
+(* on a calm state finalize never raises a panic *)
+Lemma fin_step_life_calm vh ofp s :
+  calm s /\ nonterm_ok s ->
+  match fin_step vh ofp s with FDone s' => life_ok s' /\ calm s' | FCont s3 => calm s3 /\ nonterm_ok s3 end.
+Proof.
+  intros [C H]. unfold fin_step.
+  destruct (h_rt s) eqn:Hr; try (split; [left; exact H|exact C]).
+  destruct (h_cur s =? 0); [split; [left; exact H|exact C]|].
+  pose proof (nonterm_ra vh s H) as H1.
+  assert (C1 : calm (snd (received_all vh s))) by (revert C; apply calm_frame; autorewrite with hdb; reflexivity).
+  set (s1 := snd (received_all vh s)) in *.
+  destruct (negb (fst (received_all vh s))); [split; [left; exact H1|exact C1]|].
+  destruct (negb (check_broadcast_hash s1)).
+  { split; [apply life_abort_some; exact H1|]. revert C1. apply calm_frame; autorewrite with hdb; reflexivity. }
+  rewrite (calm_fin_panics s1 C1).
+  pose proof (nonterm_emit_all ofp s1 (round_outputs s1 (h_cur s1) (cur_bv s1)) H1) as H2.
+  pose proof (calm_emit_all ofp (round_outputs s1 (h_cur s1) (cur_bv s1)) s1 C1) as C2.
+  set (s2 := emit_all ofp s1 _) in *.
+  destruct (h_rt s2) eqn:Hr2; try (split; [left; exact H2|exact C2]).
+  destruct (existsb _ _); [split; [left; exact H2|exact C2]|].
+  assert (H3 : nonterm_ok (advance s2 (next_round s1))).
+  { revert H2. apply nonterm_frame; reflexivity. }
+  assert (C3 : calm (advance s2 (next_round s1))) by (revert C2; apply calm_frame; reflexivity).
+  destruct (next_round s1 =? 0).
+  - split; [|revert C3; apply calm_frame; autorewrite with hdb; reflexivity].
+    destruct H3 as (A & B & Cc).
+    destruct (abort_none_running (set_res (advance s2 (next_round s1)))) as (E & Cl & R & _); [exact Hr2|exact A|].
+    right. unfold term_ok. rewrite Cl, R. unfold terminal. rewrite E. autorewrite with hdb.
+    apply terminal_false in B as [B _]. unfold set_res, advance in *. prjs. prjs in B. rewrite B. cbn. auto.
+  - destruct (first_bad _ _) as [[j v]|] eqn:F; [|split; assumption].
+    assert (Cab : forall ce, calm (abort (advance s2 (next_round s1)) (Some ce)))
+      by (intro ce; revert C3; apply calm_frame; autorewrite with hdb; reflexivity).
+    destruct v; try (split; [apply life_abort_some; exact H3|apply Cab]).
+    exfalso. exact (calm_first_bad _ _ _ C3 F).
+Qed.
+
+Lemma finalize_life_calm vh ofp f s : calm s -> nonterm_ok s -> life_ok (finalize vh ofp f s) /\ calm (finalize vh ofp f s).
+Proof.
+  intros C H.
+  apply (finalize_ind vh ofp (fun x => calm x /\ nonterm_ok x) (fun x => life_ok x /\ calm x)); [| |auto].
+  - intros x [Cx Hx]. split; [left; exact Hx|exact Cx].
+  - apply fin_step_life_calm.
 Qed.
 
 Lemma stop_life s : life_ok s -> life_ok (stop true s).
@@ -666,8 +940,12 @@ Qed.
 Lemma init_nonterm self n ssid proto sh : nonterm_ok (init_state self n ssid proto sh).
 Proof. repeat split. Qed.
 
+Lemma init_calm self n ssid proto sh : calm (init_state self n ssid proto sh).
+Proof. split; intros r j m []. Qed.
+
+(* NewMultiHandler has no recover -- and needs none: no peer message exists yet *)
 Lemma new_handler_life vh ofp self n ssid proto sh : life_ok (new_handler vh ofp self n ssid proto sh).
-Proof. apply finalize_life, init_nonterm. Qed.
+Proof. apply finalize_life_calm; [apply init_calm|apply init_nonterm]. Qed.
 
 Lemma api_step_life vh ofp s e : life_ok s -> life_ok (api_step true vh ofp s e).
 Proof. destruct e; cbn; auto using accept_life, stop_life, drain_life. Qed.
@@ -708,14 +986,16 @@ Qed.
 (* C07 / C09 no-op lemmas                                               *)
 (* ------------------------------------------------------------------ *)
 Lemma reject_noop vh ofp s m : can_accept s m = false -> accept vh ofp s m = s.
-Proof. intro H. unfold accept. rewrite H. cbn. destruct (h_rt s); reflexivity. Qed.
+Proof. intro H. apply accept_body_id_accept. unfold accept_body. rewrite H. cbn. destruct (h_rt s); reflexivity. Qed.
 
 Lemma duplicate_noop vh ofp s m : duplicate s m = true -> accept vh ofp s m = s.
-Proof. intro H. unfold accept. rewrite H. rewrite !orb_true_r. destruct (h_rt s); reflexivity. Qed.
+Proof.
+  intro H. apply accept_body_id_accept. unfold accept_body. rewrite H. rewrite !orb_true_r. destruct (h_rt s); reflexivity.
+Qed.
 
 Lemma terminal_noop vh ofp s m : terminal s = true -> accept vh ofp s m = s.
 Proof.
-  intro H. unfold accept, terminal in *. destruct (h_rt s); try reflexivity.
+  intro H. apply accept_body_id_accept. unfold accept_body, terminal in *. destruct (h_rt s); try reflexivity.
   destruct (h_err s); [rewrite orb_true_r; reflexivity|].
   cbn in H. rewrite H. rewrite orb_true_r. reflexivity.
 Qed.
@@ -844,13 +1124,15 @@ Proof.
   destruct (negb (fst _)); [exact H1|].
   destruct (negb (check_broadcast_hash s1)).
   { rewrite (slot_frame s1) by (autorewrite with hdb; reflexivity); exact H1. }
+  destruct (fin_panics s1).
+  { rewrite (slot_frame s1) by (autorewrite with hdb; reflexivity); exact H1. }
   pose proof (emit_all_slot_mono ofp (round_outputs s1 (h_cur s1) (cur_bv s1)) b r j x s1 H1) as H2.
   set (s2 := emit_all ofp s1 _) in *.
   destruct (h_rt s2); try exact H2.
   destruct (existsb _ _); [exact H2|].
   destruct (_ =? 0).
   { rewrite (slot_frame s2) by (autorewrite with hdb; reflexivity); exact H2. }
-  destruct (first_bad _ _) as [[j0 []]|]; [| | |exact H2];
+  destruct (first_bad _ _) as [[j0 []]|]; [| | | |exact H2];
     (rewrite (slot_frame s2) by (autorewrite with hdb; reflexivity); exact H2).
 Qed.
 
@@ -861,17 +1143,29 @@ Proof.
   intros; now apply fin_step_slot_mono.
 Qed.
 
-Lemma accept_slot_mono vh ofp s m b r j x : slot s b r j = Some x -> slot (accept vh ofp s m) b r j = Some x.
+Lemma accept_body_slot_mono vh ofp s m b r j x : slot s b r j = Some x -> slot (accept_body vh ofp s m) b r j = Some x.
 Proof.
-  intro H. unfold accept. destruct (h_rt s); try exact H.
+  intro H. unfold accept_body. destruct (h_rt s); try exact H.
   destruct (_ || _); [exact H|].
   destruct (m_round m =? 0).
   { rewrite (slot_frame s) by (autorewrite with hdb; reflexivity); exact H. }
   pose proof (store_slot_mono s m b r j x H) as H1.
   destruct (negb _); [exact H1|].
-  destruct (if m_bcast m then _ else _); [apply finalize_slot_mono; exact H1| |];
+  destruct (if m_bcast m then _ else _); [apply finalize_slot_mono; exact H1| | |];
     (rewrite (slot_frame (store s m)) by (autorewrite with hdb; reflexivity); exact H1).
 Qed.
+
+(* the recovery leaves the queues alone: a message the round code panicked on stays stored *)
+Lemma recover_slot s b r j : slot (recover_abort s) b r j = slot s b r j.
+Proof. apply slot_frame; autorewrite with hdb; reflexivity. Qed.
+
+Lemma accept_slot_body vh ofp s m b r j : slot (accept vh ofp s m) b r j = slot (accept_body vh ofp s m) b r j.
+Proof.
+  unfold accept. destruct (h_rt s) eqn:Hr; [apply recover_slot| |]; unfold accept_body; rewrite Hr; reflexivity.
+Qed.
+
+Lemma accept_slot_mono vh ofp s m b r j x : slot s b r j = Some x -> slot (accept vh ofp s m) b r j = Some x.
+Proof. intro H. rewrite accept_slot_body. apply accept_body_slot_mono, H. Qed.
 
 Lemma stop_slot fixed s b r j : slot (stop fixed s) b r j = slot s b r j.
 Proof.
@@ -916,13 +1210,13 @@ Lemma accept_stores vh ofp s m :
   h_rt s = Running -> can_accept s m = true -> terminal s = false -> duplicate s m = false -> 0 < m_round m ->
   slot (accept vh ofp s m) (m_bcast m) (m_round m) (m_from m) = Some m.
 Proof.
-  intros Hr C T D R. unfold accept. rewrite Hr, C, D.
+  intros Hr C T D R. rewrite accept_slot_body. unfold accept_body. rewrite Hr, C, D.
   apply terminal_false in T as [E Rs]. rewrite E, Rs. cbn [negb orb].
   destruct (m_round m =? 0) eqn:E0; [apply Nat.eqb_eq in E0; lia|].
   destruct (duplicate_false_slot s m D R) as [Hq N].
   pose proof (store_slot_new s m Hq N) as H1.
   destruct (negb _); [exact H1|].
-  destruct (if m_bcast m then _ else _); [apply finalize_slot_mono; exact H1| |];
+  destruct (if m_bcast m then _ else _); [apply finalize_slot_mono; exact H1| | |];
     (rewrite (slot_frame (store s m)) by (autorewrite with hdb; reflexivity); exact H1).
 Qed.
 
@@ -1045,7 +1339,7 @@ Definition err_shape (s : hstate) : Prop :=
   | None => True
   | Some (c, k) =>
       match k with
-      | EBroadcastHash => c = []
+      | EBroadcastHash | EPanic => c = []
       | EUser => c = [h_self s]
       | EAbortNotice | EVerify => exists j, c = [j] /\ j <> h_self s
       | _ => False
@@ -1069,7 +1363,7 @@ Proof. unfold abort, close_out, set_rt. dmatch; cbn; dmatch; cbn; auto. Qed.
 
 Lemma hinv_abort s c k :
   match k with
-  | EBroadcastHash => c = []
+  | EBroadcastHash | EPanic => c = []
   | EUser => c = [h_self s]
   | EAbortNotice | EVerify => exists j, c = [j] /\ j <> h_self s
   | _ => False
@@ -1141,6 +1435,7 @@ Proof.
   set (s1 := snd (received_all vh s)) in *.
   destruct (negb (fst _)); [exact H1|].
   destruct (negb (check_broadcast_hash s1)); [apply hinv_abort; [reflexivity|exact H1]|].
+  destruct (fin_panics s1); [revert H1; apply hinv_frame; autorewrite with hdb; reflexivity|].
   pose proof (hinv_emit_all ofp (round_outputs s1 (h_cur s1) (cur_bv s1)) s1 H1) as H2.
   set (s2 := emit_all ofp s1 _) in *.
   destruct (h_rt s2); try exact H2.
@@ -1152,15 +1447,24 @@ Proof.
   { apply hinv_abort_none. revert H3. apply hinv_frame; reflexivity. }
   destruct (first_bad _ _) as [[j v]|] eqn:F; [|exact H3].
   apply first_bad_in, others_spec in F.
-  destruct v; apply hinv_abort; try exact H3; try reflexivity; (exists j; split; [reflexivity|apply F]).
+  destruct v; [| | |revert H3; apply hinv_frame; autorewrite with hdb; reflexivity];
+    apply hinv_abort; try exact H3; try reflexivity; (exists j; split; [reflexivity|apply F]).
 Qed.
 
 Lemma finalize_hinv vh ofp f s : hinv s -> hinv (finalize vh ofp f s).
 Proof. apply (finalize_ind vh ofp hinv hinv); [auto|apply fin_step_hinv]. Qed.
 
+Lemma recover_hinv s : hinv s -> hinv (recover_abort s).
+Proof.
+  intro H. unfold recover_abort. destruct (h_rt s); try exact H. cbv zeta.
+  assert (H0 : hinv (set_rt s Running)) by (revert H; apply hinv_frame; autorewrite with hdb; reflexivity).
+  destruct (terminal _); [exact H0|]. apply hinv_abort; [reflexivity|exact H0].
+Qed.
+
 Lemma accept_hinv vh ofp s m : hinv s -> hinv (accept vh ofp s m).
 Proof.
-  intro H. unfold accept. destruct (h_rt s); try exact H.
+  intro H. unfold accept. destruct (h_rt s) eqn:Hrt; try exact H. apply recover_hinv.
+  unfold accept_body. rewrite Hrt.
   destruct (_ || _) eqn:G; [exact H|].
   apply accept_guard_terminal in G as (C & _ & _).
   apply can_accept_total_spec in C. destruct C as (C & _).
@@ -1168,9 +1472,10 @@ Proof.
   { apply hinv_abort; [|exact H]. exists (m_from m). auto. }
   pose proof (hinv_store s m H) as H1.
   destruct (negb _); [exact H1|].
-  destruct (if m_bcast m then _ else _); [apply finalize_hinv; exact H1| |].
+  destruct (if m_bcast m then _ else _); [apply finalize_hinv; exact H1| | |].
   - apply hinv_abort; [|exact H1]. exists (m_from m). autorewrite with hdb. auto.
   - apply hinv_abort; [reflexivity|exact H1].
+  - revert H1. apply hinv_frame; autorewrite with hdb; reflexivity.
 Qed.
 
 Lemma stop_hinv fixed s : hinv s -> hinv (stop fixed s).
@@ -1214,6 +1519,7 @@ Proof.
   set (s1 := snd (received_all vh s)) in *.
   destruct (negb (fst _)); [exact H1|].
   destruct (negb (check_broadcast_hash s1)); [revert H1; sframe|].
+  destruct (fin_panics s1); [revert H1; sframe|].
   assert (H2 : same_static s0 (emit_all ofp s1 (round_outputs s1 (h_cur s1) (cur_bv s1)))) by (revert H1; sframe).
   set (s2 := emit_all ofp s1 _) in *.
   destruct (h_rt s2); try exact H2.
@@ -1225,14 +1531,20 @@ Qed.
 Lemma finalize_static vh ofp f s0 s : same_static s0 s -> same_static s0 (finalize vh ofp f s).
 Proof. apply (finalize_ind vh ofp (same_static s0) (same_static s0)); [auto|apply fin_step_static]. Qed.
 
-Lemma accept_static vh ofp s m : same_static s (accept vh ofp s m).
+Lemma accept_body_static vh ofp s m : same_static s (accept_body vh ofp s m).
 Proof.
   assert (H : same_static s s) by (repeat split).
-  unfold accept. destruct (h_rt s); try exact H.
+  unfold accept_body. destruct (h_rt s); try exact H.
   destruct (_ || _); [exact H|].
   destruct (m_round m =? 0); [revert H; sframe|].
   destruct (negb _); [revert H; sframe|].
-  destruct (if m_bcast m then _ else _); [apply finalize_static| |]; revert H; sframe.
+  destruct (if m_bcast m then _ else _); [apply finalize_static| | |]; revert H; sframe.
+Qed.
+
+Lemma accept_static vh ofp s m : same_static s (accept vh ofp s m).
+Proof.
+  unfold accept. destruct (h_rt s); [|repeat split..].
+  generalize (accept_body_static vh ofp s m). sframe.
 Qed.
 
 Lemma api_step_static fixed vh ofp s e : same_static s (api_step fixed vh ofp s e).
@@ -1296,20 +1608,41 @@ Proof.
     destruct (sh_p2p _ _); reflexivity.
 Qed.
 
+Lemma set_rt_raise s : h_rt s = Running -> set_rt (raise_panic s) Running = s.
+Proof. destruct s; cbn. intros ->. reflexivity. Qed.
+
+(* the recovery of a panic raised on a running, open, unfinished state: a clean abort of exactly that state *)
+Lemma recover_raise s :
+  h_rt s = Running -> terminal s = false -> recover_abort (raise_panic s) = abort s (Some ([], EPanic)).
+Proof.
+  intros Hr T. rewrite recover_raised.
+  - rewrite set_rt_raise by exact Hr. reflexivity.
+  - rewrite (terminal_eq s) by (autorewrite with hdb; reflexivity). exact T.
+  - reflexivity.
+Qed.
+
 Lemma accept_current s m vh ofp :
-  h_rt s = Running -> terminal s = false -> can_accept s m = true -> duplicate s m = false ->
+  h_rt s = Running -> h_closes s = 0 -> terminal s = false -> can_accept s m = true -> duplicate s m = false ->
   0 < m_round m -> m_round m = h_cur s ->
   accept vh ofp s m =
   match (if m_bcast m then verify_bcast (store s m) m else verify_p2p (store s m) m) with
-  | VOk => finalize vh ofp (fuel_of (store s m)) (store s m)
+  | VOk => recover_abort (finalize vh ofp (fuel_of (store s m)) (store s m))
   | VBad => abort (store s m) (Some ([m_from m], EVerify))
   | VHash => abort (store s m) (Some ([], EBroadcastHash))
+  | VPanic => abort (store s m) (Some ([], EPanic))
   end.
 Proof.
-  intros Hr T C D R Ecur. unfold accept. rewrite Hr, C, D.
-  apply terminal_false in T as [E Rs]. rewrite E, Rs. cbn [negb orb].
+  intros Hr Hc T C D R Ecur. unfold accept, accept_body. rewrite Hr, C, D.
+  pose proof T as T'. apply terminal_false in T' as [E Rs]. rewrite E, Rs. cbn [negb orb].
   destruct (m_round m =? 0) eqn:E0; [apply Nat.eqb_eq in E0; lia|].
-  autorewrite with hdb. rewrite Ecur, Nat.eqb_refl. cbn [negb]. reflexivity.
+  autorewrite with hdb. rewrite Ecur, Nat.eqb_refl. cbn [negb].
+  assert (Hr1 : h_rt (store s m) = Running) by (autorewrite with hdb; exact Hr).
+  assert (Hc1 : h_closes (store s m) = 0) by (autorewrite with hdb; exact Hc).
+  destruct (if m_bcast m then _ else _).
+  - reflexivity.
+  - apply recover_abort_running. apply (abort_some_running _ _ Hr1 Hc1).
+  - apply recover_abort_running. apply (abort_some_running _ _ Hr1 Hc1).
+  - apply recover_raise; [exact Hr1|]. rewrite (terminal_eq s) by (autorewrite with hdb; reflexivity). exact T.
 Qed.
 
 Lemma abort_clean s ce :
@@ -1332,9 +1665,10 @@ Lemma invalid_message_clean_abort_inv vh ofp s m :
   h_closes s' = 1 /\ result_class s' = 2 /\ h_err s' = Some ([m_from m], EVerify) /\ h_rt s' = Running.
 Proof.
   intros L CR Hr T C D R Ecur V SV Now s'. subst s'.
+  destruct (life_not_terminal s L T) as (A & _ & _).
   rewrite accept_current by assumption.
   destruct (current_verdict s m CR Ecur Now) as [_ Vb]. rewrite (Vb SV V).
-  destruct (life_not_terminal s L T) as (A & _ & _). apply terminal_false in T as [_ Rs].
+  apply terminal_false in T as [_ Rs].
   apply abort_clean; autorewrite with hdb; assumption.
 Qed.
 
@@ -1363,9 +1697,10 @@ Lemma foreign_view_clean_abort_inv vh ofp s m :
   h_closes s' = 1 /\ result_class s' = 2 /\ h_err s' = Some ([], EBroadcastHash) /\ h_rt s' = Running.
 Proof.
   intros L CR Hr T C D R Ecur SV Now s'. subst s'.
+  destruct (life_not_terminal s L T) as (A & _ & _).
   rewrite accept_current by assumption.
   destruct (current_verdict s m CR Ecur Now) as [Vh _]. rewrite (Vh SV).
-  destruct (life_not_terminal s L T) as (A & _ & _). apply terminal_false in T as [_ Rs].
+  apply terminal_false in T as [_ Rs].
   apply abort_clean; autorewrite with hdb; assumption.
 Qed.
 
@@ -1391,11 +1726,14 @@ Lemma abort_notice_attribution_inv vh ofp s m :
   let s' := accept vh ofp s m in
   h_err s' = Some ([m_from m], EAbortNotice) /\ h_closes s' = 1 /\ result_class s' = 2.
 Proof.
-  intros L Hr T C R0 s'. subst s'. unfold accept, duplicate. rewrite Hr, C, R0. cbn [Nat.eqb].
-  pose proof T as T'. apply terminal_false in T' as [E Rs]. rewrite E, Rs. cbn [negb orb].
+  intros L Hr T C R0 s'. subst s'.
   destruct (life_not_terminal s L T) as (A & _ & _).
   destruct (abort_some_running s ([m_from m], EAbortNotice) Hr A) as (Er & Cl & Rr).
-  unfold result_class. rewrite Er. autorewrite with hdb. rewrite Rs. auto.
+  pose proof T as T'. apply terminal_false in T' as [E Rs].
+  assert (X : accept vh ofp s m = abort s (Some ([m_from m], EAbortNotice))).
+  { unfold accept, accept_body, duplicate. rewrite Hr, C, R0. cbn [Nat.eqb].
+    rewrite E, Rs. cbn [negb orb]. apply recover_abort_running, Rr. }
+  rewrite X. unfold result_class. rewrite Er. autorewrite with hdb. rewrite Rs. auto.
 Qed.
 
 Theorem abort_notice_attribution vh ofp self n ssid proto sh s m :
@@ -1434,7 +1772,7 @@ Proof.
   destruct (negb (existsb _ _)); [discriminate|].
   destruct (_ && _); [discriminate|].
   destruct (same_view s p); cbn [negb]; [|discriminate].
-  destruct (sh_p2p _ _); destruct (m_valid p); intro H; try discriminate; auto.
+  destruct (sh_p2p _ _); destruct (m_valid p); try destruct (panics_verify p); intro H; try discriminate; auto.
 Qed.
 
 Lemma verify_bcast_bad s m :
@@ -1449,6 +1787,7 @@ Proof.
   2:{ intros _. left. unfold bad_msg. rewrite Bm, Sb. auto. }
   destruct (m_valid m) eqn:V; cbn [negb].
   2:{ intros _. left. unfold bad_msg. rewrite Bm, V. split; [apply orb_true_r|reflexivity]. }
+  destruct (panics_verify m); [discriminate|].
   destruct (sh_p2p _ _); try discriminate;
     (destruct (qget (h_qp s) (m_round m) (m_from m)) as [p|] eqn:Q; [|discriminate];
      intro H; right; exists p; split; [reflexivity|];
@@ -1476,19 +1815,38 @@ Qed.
 
 Definition verify_blame_ok (s : hstate) : Prop := forall c, h_err s = Some (c, EVerify) -> blames_bad s c.
 
+(* the body of Accept never produces the recovered-panic error itself *)
+Definition no_epanic (s : hstate) : Prop := forall c, h_err s <> Some (c, EPanic).
+Definition blame_post (s : hstate) : Prop := verify_blame_ok s /\ no_epanic s.
+
+Lemma blame_post_none s : h_err s = None -> blame_post s.
+Proof. intro E. split; intros c Hc; congruence. Qed.
+
+Lemma blame_post_abort_other s c k :
+  h_err s = None -> k <> EVerify -> k <> EPanic -> blame_post (abort s (Some (c, k))).
+Proof.
+  intros E K1 K2. split; intros c0 Hc; destruct (abort_err_cases s (c, k)) as [X|X]; rewrite X in Hc; congruence.
+Qed.
+
+Lemma blame_post_abort_verify s j :
+  h_err s = None -> blames_bad (abort s (Some ([j], EVerify))) [j] -> blame_post (abort s (Some ([j], EVerify))).
+Proof.
+  intros E B. split; intros c0 Hc; destruct (abort_err_cases s ([j], EVerify)) as [X|X]; rewrite X in Hc; congruence.
+Qed.
+
 Lemma fin_step_verify_blame vh ofp s :
   wf_queues s /\ h_err s = None ->
-  match fin_step vh ofp s with FDone s' => verify_blame_ok s' | FCont s3 => wf_queues s3 /\ h_err s3 = None end.
+  match fin_step vh ofp s with FDone s' => blame_post s' | FCont s3 => wf_queues s3 /\ h_err s3 = None end.
 Proof.
-  intros [W E]. unfold fin_step, verify_blame_ok.
-  destruct (h_rt s); try (intros c Hc; congruence).
-  destruct (h_cur s =? 0); [intros c Hc; congruence|].
+  intros [W E]. unfold fin_step.
+  destruct (h_rt s); try (apply blame_post_none; exact E).
+  destruct (h_cur s =? 0); [apply blame_post_none; exact E|].
   set (s1 := snd (received_all vh s)).
   assert (E1 : h_err s1 = None) by (unfold s1; autorewrite with hdb; exact E).
   assert (W1 : wf_queues s1) by (unfold wf_queues, s1; autorewrite with hdb; exact W).
-  destruct (negb (fst _)); [intros c Hc; congruence|].
-  destruct (negb (check_broadcast_hash s1)).
-  { intros c Hc. destruct (abort_err_cases s1 ([], EBroadcastHash)) as [X|X]; rewrite X in Hc; congruence. }
+  destruct (negb (fst _)); [apply blame_post_none; exact E1|].
+  destruct (negb (check_broadcast_hash s1)); [apply blame_post_abort_other; [exact E1|discriminate..]|].
+  destruct (fin_panics s1); [apply blame_post_none; autorewrite with hdb; exact E1|].
   set (s2 := emit_all ofp s1 (round_outputs s1 (h_cur s1) (cur_bv s1))).
   assert (E2 : h_err s2 = None) by (unfold s2; autorewrite with hdb; exact E1).
   assert (W2 : wf_queues s2).
@@ -1496,53 +1854,50 @@ Proof.
     { induction l as [|o l IH]; intros s0 H0; cbn [emit_all]; [exact H0|]. apply IH.
       unfold wf_queues. autorewrite with hdb. destruct (o_bcast o); [apply wf_store|]; exact H0. }
     apply G, W1. }
-  destruct (h_rt s2); try (intros c Hc; congruence).
-  destruct (existsb _ _); [intros c Hc; congruence|].
+  destruct (h_rt s2); try (apply blame_post_none; exact E2).
+  destruct (existsb _ _); [apply blame_post_none; exact E2|].
   destruct (_ =? 0).
-  { intros c Hc. rewrite abort_none_err in Hc. unfold set_res, advance in Hc. prjs in Hc. congruence. }
+  { apply blame_post_none. rewrite abort_none_err. exact E2. }
   destruct (first_bad _ _) as [[j v]|] eqn:F; [|split; [exact W2|exact E2]].
   destruct v.
   - (* VOk cannot be a bad verdict *)
     apply first_bad_spec in F as (_ & _ & X). discriminate.
-  - intros c Hc.
-    destruct (abort_err_cases (advance s2 (next_round s1)) ([j], EVerify)) as [X|X]; rewrite X in Hc.
-    + inversion Hc; subst c.
-      apply (blames_bad_frame (advance s2 (next_round s1))); autorewrite with hdb; try reflexivity.
-      eapply first_bad_blames; [exact W2|exact F].
-    + unfold advance in Hc. prjs in Hc. congruence.
-  - intros c Hc.
-    destruct (abort_err_cases (advance s2 (next_round s1)) ([], EBroadcastHash)) as [X|X]; rewrite X in Hc.
-    + congruence.
-    + unfold advance in Hc. prjs in Hc. congruence.
+  - apply blame_post_abort_verify; [exact E2|].
+    apply (blames_bad_frame (advance s2 (next_round s1))); autorewrite with hdb; try reflexivity.
+    eapply first_bad_blames; [exact W2|exact F].
+  - apply blame_post_abort_other; [exact E2|discriminate..].
+  - apply blame_post_none. autorewrite with hdb. exact E2.
+Qed.
+
+Lemma finalize_blame_post vh ofp f s :
+  wf_queues s -> h_err s = None -> blame_post (finalize vh ofp f s).
+Proof.
+  intros W E.
+  apply (finalize_ind vh ofp (fun s => wf_queues s /\ h_err s = None) blame_post); [| |auto].
+  - intros s0 [_ E0]. apply blame_post_none, E0.
+  - apply fin_step_verify_blame.
 Qed.
 
 Lemma finalize_verify_blame vh ofp f s :
   wf_queues s -> h_err s = None -> verify_blame_ok (finalize vh ofp f s).
-Proof.
-  intros W E.
-  apply (finalize_ind vh ofp (fun s => wf_queues s /\ h_err s = None) verify_blame_ok); [| |auto].
-  - intros s0 [_ E0] c Hc. congruence.
-  - apply fin_step_verify_blame.
-Qed.
+Proof. intros W E. apply finalize_blame_post; assumption. Qed.
 
-Lemma verify_failure_blames_sender_inv vh ofp s m c :
-  wf_queues s -> h_err s = None ->
-  h_err (accept vh ofp s m) = Some (c, EVerify) -> blames_bad (accept vh ofp s m) c.
+Lemma accept_body_blame_post vh ofp s m :
+  wf_queues s -> h_err s = None -> blame_post (accept_body vh ofp s m).
 Proof.
-  intros W E. unfold accept.
-  destruct (h_rt s); try congruence.
-  destruct (_ || _) eqn:G; [congruence|].
+  intros W E. unfold accept_body.
+  destruct (h_rt s); try (apply blame_post_none; exact E).
+  destruct (_ || _) eqn:G; [apply blame_post_none; exact E|].
   apply accept_guard_terminal in G as (C & T & D).
-  destruct (m_round m =? 0) eqn:R0.
-  { intro Hc. destruct (abort_err_cases s ([m_from m], EAbortNotice)) as [X|X]; rewrite X in Hc; congruence. }
+  destruct (m_round m =? 0) eqn:R0; [apply blame_post_abort_other; [exact E|discriminate..]|].
   apply Nat.eqb_neq in R0.
   pose proof (wf_store s m W) as W1.
   assert (E1 : h_err (store s m) = None) by (autorewrite with hdb; exact E).
-  destruct (negb _); [congruence|].
-  destruct (if m_bcast m then _ else _) eqn:V; [apply finalize_verify_blame; assumption| |].
-  2:{ intro Hc. destruct (abort_err_cases (store s m) ([], EBroadcastHash)) as [X|X]; rewrite X in Hc; congruence. }
-  intro Hc. destruct (abort_err_cases (store s m) ([m_from m], EVerify)) as [X|X]; rewrite X in Hc; [|congruence].
-  inversion Hc; subst c.
+  destruct (negb _); [apply blame_post_none; exact E1|].
+  destruct (if m_bcast m then _ else _) eqn:V;
+    [apply finalize_blame_post; assumption| |apply blame_post_abort_other; [exact E1|discriminate..]
+    |apply blame_post_none; rewrite raise_panic_h_err; exact E1].
+  apply blame_post_abort_verify; [exact E1|].
   apply (blames_bad_frame (store s m)); autorewrite with hdb; try reflexivity.
   destruct (duplicate_false_slot s m D) as [Hq N]; [lia|].
   pose proof (store_slot_new s m Hq N) as St.
@@ -1554,6 +1909,47 @@ Proof.
       exists (m_from m), p. unfold stored, slot. rewrite P1, P2, P3. autorewrite with hdb. auto 10.
   - destruct (verify_p2p_bad (store s m) m Bm V) as [B SV]. rewrite store_h_shape in B.
     exists (m_from m), m. unfold stored. rewrite Bm. autorewrite with hdb. auto 10.
+Qed.
+
+(* the recovery never produces (or disturbs) an EVerify verdict *)
+Lemma recover_verify_blame b : verify_blame_ok b -> verify_blame_ok (recover_abort b).
+Proof.
+  intro H. unfold recover_abort. destruct (h_rt b); try exact H. cbv zeta.
+  destruct (terminal (set_rt b Running)) eqn:T.
+  - intros c Hc. autorewrite with hdb in Hc.
+    apply (blames_bad_frame b); autorewrite with hdb; try reflexivity. apply H, Hc.
+  - intros c Hc. apply terminal_false in T as [E _].
+    destruct (abort_err_cases (set_rt b Running) ([], EPanic)) as [X|X]; rewrite X in Hc; congruence.
+Qed.
+
+Lemma verify_failure_blames_sender_inv vh ofp s m c :
+  wf_queues s -> h_err s = None ->
+  h_err (accept vh ofp s m) = Some (c, EVerify) -> blames_bad (accept vh ofp s m) c.
+Proof.
+  intros W E. revert c. change (verify_blame_ok (accept vh ofp s m)). unfold accept.
+  destruct (h_rt s); try (intros c Hc; congruence).
+  apply recover_verify_blame, accept_body_blame_post; assumption.
+Qed.
+
+(* the recovered-panic error comes from the recovery alone: it is reported only if the body of Accept panicked
+   (the handler without the recovery would have crashed in that call), and it names nobody *)
+Lemma epanic_only_by_recovery_inv vh ofp s m c :
+  wf_queues s -> h_err s = None ->
+  h_err (accept vh ofp s m) = Some (c, EPanic) ->
+  c = [] /\ is_panicked (h_rt (accept_v0 vh ofp s m)) = true.
+Proof.
+  intros W E. unfold accept, accept_v0.
+  destruct (h_rt s) eqn:Hr; try congruence.
+  destruct (accept_body_blame_post vh ofp s m W E) as [_ NP].
+  set (b := accept_body vh ofp s m) in *.
+  destruct (is_panicked (h_rt b)) eqn:P.
+  - intro Hc. split; [|reflexivity]. revert Hc. unfold recover_abort.
+    destruct (h_rt b); try discriminate. cbv zeta.
+    destruct (terminal (set_rt b Running)) eqn:T.
+    + autorewrite with hdb. intro Hc. exfalso. exact (NP c Hc).
+    + apply terminal_false in T as [E0 _]. intro Hc.
+      destruct (abort_err_cases (set_rt b Running) ([], EPanic)) as [X|X]; rewrite X in Hc; congruence.
+  - rewrite recover_abort_id by exact P. intro Hc. exfalso. exact (NP c Hc).
 Qed.
 
 Theorem verify_failure_blames_sender fixed vh ofp self n ssid proto sh s m c :
@@ -1605,13 +2001,212 @@ Theorem error_kinds_and_culprits fixed vh ofp self n ssid proto sh s c k :
   reachable fixed vh ofp self n ssid proto sh s ->
   h_err s = Some (c, k) ->
   match k with
-  | EBroadcastHash => c = []
+  | EBroadcastHash | EPanic => c = []
   | EUser => c = [h_self s]
   | EAbortNotice | EVerify => exists j, c = [j] /\ j <> h_self s
   | _ => False
   end.
 Proof.
   intros R E. apply reachable_hinv in R. destruct R as (_ & _ & S). unfold err_shape in S. rewrite E in S. exact S.
+Qed.
+
+(* ------------------------------------------------------------------ *)
+(* C05 / C17: a panic of the round code is contained by Accept           *)
+(* ------------------------------------------------------------------ *)
+(* the verdict on a fresh message of the current round the round code panics on, when it is processed now *)
+Lemma current_verdict_panic s m :
+  cur_reached s -> m_round m = h_cur s -> same_view s m = true -> m_valid m = true -> panics_verify m = true ->
+  (if m_bcast m then sh_bcast (h_shape s) (m_round m) = true
+   else sh_p2p (h_shape s) (m_round m) <> NoP2P
+        /\ (sh_bcast (h_shape s) (m_round m) = false \/ slot s true (m_round m) (m_from m) <> None)) ->
+  (if m_bcast m then verify_bcast (store s m) m else verify_p2p (store s m) m) = VPanic.
+Proof.
+  intros CR Ecur SV V P Now.
+  unfold verify_bcast, verify_p2p. rewrite (same_view_frame s (store s m)) by (autorewrite with hdb; reflexivity).
+  autorewrite with hdb. rewrite Ecur. unfold cur_reached in CR. rewrite CR. cbn [negb].
+  rewrite <- Ecur. rewrite SV, V, P. cbn [negb].
+  destruct (m_bcast m) eqn:Bm.
+  - rewrite Now. reflexivity.
+  - rewrite store_p2p_h_qb by exact Bm. destruct Now as [NP Now].
+    assert (W : sh_bcast (h_shape s) (m_round m) &&
+                match qget (h_qb s) (m_round m) (m_from m) with Some _ => false | None => true end = false).
+    { destruct Now as [N|N]; [rewrite N; reflexivity|].
+      unfold slot in N. destruct (qget (h_qb s) (m_round m) (m_from m)); [apply andb_false_r|congruence]. }
+    rewrite W. destruct (sh_p2p _ _); [congruence|reflexivity..].
+Qed.
+
+(* what is left of [b] after the recovered abort: everything but error, notice, close *)
+Definition recovered_from (b s' : hstate) : Prop :=
+  h_rt s' = Running
+  /\ h_err s' = Some ([], EPanic) /\ h_res s' = false /\ result_class s' = 2 /\ terminal s' = true
+  /\ h_closes s' = 1
+  /\ h_cur s' = h_cur b /\ h_reached s' = h_reached b /\ h_qb s' = h_qb b /\ h_qp s' = h_qp b
+  /\ h_hashes s' = h_hashes b
+  /\ h_out s' = (if h_pending b <? capacity b then h_out b ++ [mkOut None 0 false 0%N] else h_out b)
+  /\ h_pending s' = (if h_pending b <? capacity b then S (h_pending b) else h_pending b).
+
+Lemma recover_raised_spec b : nonterm_raised b -> recovered_from b (recover_abort b).
+Proof.
+  intros (Hc & T & Hr). rewrite recover_raised; [|exact T|rewrite Hr; reflexivity].
+  apply terminal_false in T as [E Rs].
+  unfold recovered_from, result_class, terminal, abort, close_out, capacity. autorewrite with hdb. rewrite Hc. cbn.
+  destruct (h_pending b <? 2 * h_n b); cbn; rewrite Rs; repeat split; reflexivity.
+Qed.
+
+(* C05/C17: whenever the body of Accept panics -- i.e. whenever the handler without the recovery would have crashed
+   in this call -- it is the round code that panicked (never a channel operation), and the call ends the session
+   cleanly: error "panic while processing message" naming nobody, no result, channel closed exactly once, abort
+   notice sent iff the channel had room, runtime still Running; round number, reached rounds, queues (including the
+   message the round code panicked on) and view digests are what the body had built up when it panicked. *)
+Theorem panic_contained_inv vh ofp s m :
+  life_ok s -> h_rt s = Running ->
+  is_panicked (h_rt (accept_v0 vh ofp s m)) = true ->
+  h_rt (accept_v0 vh ofp s m) = Panicked 3
+  /\ terminal s = false /\ h_closes s = 0
+  /\ recovered_from (accept_v0 vh ofp s m) (accept vh ofp s m).
+Proof.
+  intros L Hr P. unfold accept_v0 in *.
+  destruct (accept_body_life vh ofp s m L) as [Lb|Rb].
+  { apply life_not_panicked in Lb. congruence. }
+  split; [apply Rb|].
+  assert (T : terminal s = false).
+  { destruct (terminal s) eqn:T; [|reflexivity]. exfalso.
+    assert (X : accept_body vh ofp s m = s).
+    { unfold accept_body, terminal in *. destruct (h_rt s); try reflexivity.
+      destruct (h_err s); [rewrite orb_true_r; reflexivity|]. cbn in T. rewrite T, orb_true_r. reflexivity. }
+    rewrite X, Hr in P. discriminate. }
+  split; [exact T|]. split; [apply (life_not_terminal s L T)|].
+  unfold accept. rewrite Hr. apply recover_raised_spec, Rb.
+Qed.
+
+Theorem panic_contained vh ofp self n ssid proto sh s m :
+  reachable true vh ofp self n ssid proto sh s -> h_rt s = Running ->
+  is_panicked (h_rt (accept_v0 vh ofp s m)) = true ->
+  h_rt (accept_v0 vh ofp s m) = Panicked 3
+  /\ terminal s = false /\ h_closes s = 0
+  /\ recovered_from (accept_v0 vh ofp s m) (accept vh ofp s m).
+Proof. intro R. apply panic_contained_inv. eapply reachable_life; eassumption. Qed.
+
+(* ... and the two handlers agree on every call in which the round code does not panic *)
+Theorem accept_v0_agrees vh ofp s m :
+  is_panicked (h_rt (accept_v0 vh ofp s m)) = false -> accept vh ofp s m = accept_v0 vh ofp s m.
+Proof. apply accept_of_body. Qed.
+
+(* after the recovered panic the session stays ended: every later call (any message, Stop, Drain) leaves the state
+   alone up to the drained count *)
+Theorem panic_contained_stable vh ofp s m es :
+  life_ok s -> h_rt s = Running ->
+  is_panicked (h_rt (accept_v0 vh ofp s m)) = true ->
+  let s1 := accept vh ofp s m in
+  let s2 := run_api true vh ofp s1 es in
+  same_but_pending s1 s2
+  /\ h_rt s2 = Running /\ h_err s2 = Some ([], EPanic) /\ h_res s2 = false /\ result_class s2 = 2 /\ h_closes s2 = 1.
+Proof.
+  intros L Hr P s1 s2.
+  destruct (panic_contained_inv vh ofp s m L Hr P) as (_ & _ & _ & R).
+  destruct R as (R1 & R2 & R3 & R4 & R5 & R6 & _). fold s1 in R1, R2, R3, R4, R5, R6.
+  destruct (terminal_stable vh ofp es s1 R5) as (A & B & C). fold s2 in A, B, C.
+  split; [exact A|].
+  destruct A as (_&_&_&_&_&_&_&_&_&_&E&Rs&_&Cl&Rt).
+  rewrite Rt, E, Rs, Cl, C. auto.
+Qed.
+
+(* the concrete case of a message of the current round that is processed at once: the message is stored first,
+   then the round code panics on it; the session is aborted in exactly that state *)
+Theorem panicking_message_current_inv vh ofp s m :
+  life_ok s -> cur_reached s ->
+  h_rt s = Running -> terminal s = false ->
+  can_accept s m = true -> duplicate s m = false ->
+  0 < m_round m -> m_round m = h_cur s ->
+  m_valid m = true -> panics_verify m = true -> same_view s m = true ->
+  (if m_bcast m then sh_bcast (h_shape s) (m_round m) = true
+   else sh_p2p (h_shape s) (m_round m) <> NoP2P
+        /\ (sh_bcast (h_shape s) (m_round m) = false \/ slot s true (m_round m) (m_from m) <> None)) ->
+  let s' := accept vh ofp s m in
+  s' = abort (store s m) (Some ([], EPanic))
+  /\ h_rt (accept_v0 vh ofp s m) = Panicked 3
+  /\ h_closes s' = 1 /\ result_class s' = 2 /\ h_err s' = Some ([], EPanic) /\ h_rt s' = Running
+  /\ h_cur s' = h_cur s
+  /\ slot s' (m_bcast m) (m_round m) (m_from m) = Some m.
+Proof.
+  intros L CR Hr T C D R Ecur V P SV Now s'. subst s'.
+  destruct (life_not_terminal s L T) as (A & _ & _).
+  pose proof (current_verdict_panic s m CR Ecur SV V P Now) as Vp.
+  rewrite accept_current by assumption. rewrite Vp.
+  split; [reflexivity|]. split.
+  { unfold accept_v0, accept_body. rewrite Hr, C, D.
+    pose proof T as T'. apply terminal_false in T' as [E Rs]. rewrite E, Rs. cbn [negb orb].
+    destruct (m_round m =? 0) eqn:E0; [apply Nat.eqb_eq in E0; lia|].
+    autorewrite with hdb. rewrite <- Ecur, Nat.eqb_refl. cbn [negb]. rewrite Vp. reflexivity. }
+  pose proof T as T'. apply terminal_false in T' as [_ Rs].
+  destruct (abort_clean (store s m) ([], EPanic)) as (X1 & X2 & X3 & X4); [autorewrite with hdb; assumption..|].
+  cbv zeta in X1, X2, X3, X4. rewrite X1, X2, X3, X4. autorewrite with hdb.
+  repeat split; try reflexivity.
+  rewrite (slot_frame (store s m)) by (autorewrite with hdb; reflexivity).
+  destruct (duplicate_false_slot s m D R) as [Hq N]. apply store_slot_new; assumption.
+Qed.
+
+Theorem panicking_message_current vh ofp self n ssid proto sh s m :
+  reachable true vh ofp self n ssid proto sh s ->
+  h_rt s = Running -> terminal s = false ->
+  can_accept s m = true -> duplicate s m = false ->
+  0 < m_round m -> m_round m = h_cur s ->
+  m_valid m = true -> panics_verify m = true -> same_view s m = true ->
+  (if m_bcast m then sh_bcast (h_shape s) (m_round m) = true
+   else sh_p2p (h_shape s) (m_round m) <> NoP2P
+        /\ (sh_bcast (h_shape s) (m_round m) = false \/ slot s true (m_round m) (m_from m) <> None)) ->
+  let s' := accept vh ofp s m in
+  s' = abort (store s m) (Some ([], EPanic))
+  /\ h_rt (accept_v0 vh ofp s m) = Panicked 3
+  /\ h_closes s' = 1 /\ result_class s' = 2 /\ h_err s' = Some ([], EPanic) /\ h_rt s' = Running
+  /\ h_cur s' = h_cur s
+  /\ slot s' (m_bcast m) (m_round m) (m_from m) = Some m.
+Proof.
+  intro R. apply panicking_message_current_inv.
+  - eapply reachable_life; eassumption.
+  - eapply reachable_hinv; eassumption.
+Qed.
+
+(* the recovered-panic error is reported only for a call in which the round code panicked, and names nobody *)
+Theorem epanic_only_by_recovery fixed vh ofp self n ssid proto sh s m c :
+  reachable fixed vh ofp self n ssid proto sh s ->
+  h_err s = None ->
+  h_err (accept vh ofp s m) = Some (c, EPanic) ->
+  c = [] /\ is_panicked (h_rt (accept_v0 vh ofp s m)) = true.
+Proof. intros R. apply epanic_only_by_recovery_inv. apply reachable_hinv in R. apply R. Qed.
+
+(* histories without a message the round code panics on: the queues stay calm, Accept IS its body (the recovery
+   never fires), and the recovered-panic error is never reported *)
+Lemma accept_body_calm vh ofp s m :
+  m_panic m = NoPanic -> calm s -> life_ok s ->
+  calm (accept_body vh ofp s m) /\ is_panicked (h_rt (accept_body vh ofp s m)) = false.
+Proof.
+  intros Pm C L. unfold accept_body.
+  destruct (h_rt s) eqn:Hr; try (split; [exact C|rewrite Hr; apply life_not_panicked in L; rewrite Hr in L; exact L]).
+  destruct (_ || _) eqn:G; [split; [exact C|rewrite Hr; reflexivity]|].
+  apply accept_guard_terminal in G as (_ & T & _).
+  pose proof (life_not_terminal s L T) as Hn.
+  assert (Ab : forall s0 ce, calm s0 -> nonterm_ok s0 -> calm (abort s0 (Some ce)) /\ is_panicked (h_rt (abort s0 (Some ce))) = false).
+  { intros s0 ce C0 N0. split; [revert C0; apply calm_frame; autorewrite with hdb; reflexivity|].
+    apply life_not_panicked, life_abort_some, N0. }
+  destruct (m_round m =? 0); [apply Ab; assumption|].
+  pose proof (nonterm_store s m Hn) as H1.
+  pose proof (calm_store s m Pm C) as C1.
+  destruct (negb _); [split; [exact C1|apply H1]|].
+  destruct (if m_bcast m then _ else _) eqn:V; try (apply Ab; assumption).
+  - destruct (finalize_life_calm vh ofp (fuel_of (store s m)) (store s m) C1 H1) as [Lf Cf].
+    split; [exact Cf|apply life_not_panicked, Lf].
+  - exfalso. destruct (m_bcast m).
+    + exact (calm_verify_bcast _ _ C1 Pm V).
+    + exact (calm_verify_p2p _ _ Pm V).
+Qed.
+
+Theorem calm_accept vh ofp s m :
+  m_panic m = NoPanic -> calm s -> life_ok s ->
+  accept vh ofp s m = accept_v0 vh ofp s m /\ calm (accept vh ofp s m).
+Proof.
+  intros Pm C L. destruct (accept_body_calm vh ofp s m Pm C L) as [Cb Pb].
+  rewrite (accept_of_body vh ofp s m Pb). split; [reflexivity|exact Cb].
 Qed.
 
 (* ------------------------------------------------------------------ *)
@@ -1780,7 +2375,8 @@ Definition cap_inv (L : nat) (s : hstate) : Prop :=
                /\ length (h_out s) + k * h_n s <= L.
 
 Definition cap_post (L : nat) (s : hstate) : Prop :=
-  h_rt s = Running /\ length (h_out s) <= L + 1.
+  (h_rt s = Running /\ length (h_out s) <= L + 1)
+  \/ (h_rt s = Panicked 3 /\ h_closes s = 0 /\ length (h_out s) <= L).   (* the round code panicked: abort notice still to come *)
 
 Lemma abort_out_length s e : length (h_out (abort s e)) <= length (h_out s) + 1.
 Proof.
@@ -1811,11 +2407,13 @@ Proof.
   assert (Hsh1 : h_shape s1 = h_shape s) by (unfold s1; autorewrite with hdb; reflexivity).
   assert (Q1 : quiet_from s1 (h_cur s + k)) by (revert Q; apply quiet_frame; unfold s1; autorewrite with hdb; reflexivity).
   destruct (negb (fst (received_all vh s))) eqn:RA.
-  { split; [exact Hr1|]. rewrite Ho1. lia. }
+  { left. split; [exact Hr1|]. rewrite Ho1. lia. }
   apply negb_false_iff in RA.
   destruct (negb (check_broadcast_hash s1)).
-  { split; [apply abort_running; assumption|].
+  { left. split; [apply abort_running; assumption|].
     pose proof (abort_out_length s1 (Some ([], EBroadcastHash))). rewrite Ho1 in *. lia. }
+  destruct (fin_panics s1).
+  { right. autorewrite with hdb. split; [reflexivity|]. split; [exact Hc1|]. rewrite Ho1. lia. }
   (* how many messages does this round emit? *)
   set (outs := round_outputs s1 (h_cur s1) (cur_bv s1)).
   assert (Hlen : length outs <= (if sh_final (h_shape s) <=? h_cur s then 0 else h_n s) /\
@@ -1838,22 +2436,24 @@ Proof.
   rewrite Hr2.
   assert (Hc2 : h_closes s2 = 0) by (unfold s2; autorewrite with hdb; exact Hc1).
   destruct (existsb _ _).
-  { split; [exact Hr2|]. rewrite Ho2, Ho1. lia. }
+  { left. split; [exact Hr2|]. rewrite Ho2, Ho1. lia. }
   assert (Hnr : next_round s1 = if sh_final (h_shape s) <=? h_cur s then 0 else S (h_cur s))
     by (unfold next_round; rewrite Hsh1, Hcur1; reflexivity).
   destruct (sh_final (h_shape s) <=? h_cur s) eqn:Fin; rewrite Hnr.
   - (* last round: result, channel closed *)
-    cbn [Nat.eqb].
+    cbn [Nat.eqb]. left.
     split; [apply abort_running; [exact Hr2|exact Hc2]|].
     pose proof (abort_out_length (set_res (advance s2 0)) None) as X.
     change (h_out (set_res (advance s2 0))) with (h_out s2) in X. rewrite Ho2, Ho1 in X. lia.
   - specialize (Hk eq_refl). cbn [Nat.eqb].
     destruct (first_bad _ _) as [[j v]|].
     + assert (Z : forall e, cap_post L (abort (advance s2 (S (h_cur s))) e)).
-      { intro e. split; [apply abort_running; [exact Hr2|exact Hc2]|].
+      { intro e. left. split; [apply abort_running; [exact Hr2|exact Hc2]|].
         pose proof (abort_out_length (advance s2 (S (h_cur s))) e) as X.
         change (h_out (advance s2 (S (h_cur s)))) with (h_out s2) in X. rewrite Ho2, Ho1 in X. nia. }
-      destruct v; apply Z.
+      destruct v; try apply Z.
+      right. autorewrite with hdb. split; [reflexivity|]. split; [exact Hc2|].
+      change (h_out (advance s2 (S (h_cur s)))) with (h_out s2). rewrite Ho2, Ho1. nia.
     + assert (Hn2 : h_n s2 = h_n s) by (unfold s2; autorewrite with hdb; exact Hn1).
       assert (Hs2 : h_self s2 = h_self s) by (unfold s2; autorewrite with hdb; exact Hs1).
       assert (Hsh2 : h_shape s2 = h_shape s) by (unfold s2; autorewrite with hdb; exact Hsh1).
@@ -1874,7 +2474,7 @@ Qed.
 Lemma finalize_capacity vh ofp L f s : cap_inv L s -> cap_post L (finalize vh ofp f s).
 Proof.
   apply (finalize_ind vh ofp (cap_inv L) (cap_post L)); [|apply fin_step_cap].
-  intros s0 (Hr & _ & _ & _ & _ & _ & k & _ & _ & _ & Ho). split; [exact Hr|lia].
+  intros s0 (Hr & _ & _ & _ & _ & _ & k & _ & _ & _ & Ho). left. split; [exact Hr|lia].
 Qed.
 
 (* the peers' queue slots and the round counter only move forward inside finalize *)
@@ -1921,6 +2521,8 @@ Proof.
   destruct (negb (fst _)); [right; exact G1|].
   destruct (negb (check_broadcast_hash s1)).
   { right. revert G1. apply grows_frame; autorewrite with hdb; reflexivity. }
+  destruct (fin_panics s1).
+  { right. revert G1. apply grows_frame; autorewrite with hdb; reflexivity. }
   set (s2 := emit_all ofp s1 (round_outputs s1 (h_cur s1) (cur_bv s1))).
   assert (G2 : grows s0 s2).
   { destruct G1 as (A & B & C). unfold s2. split; [autorewrite with hdb; exact A|].
@@ -1939,6 +2541,7 @@ Proof.
     + right. revert G3. apply grows_frame; autorewrite with hdb; reflexivity.
     + right. revert G3. apply grows_frame; autorewrite with hdb; reflexivity.
     + right. revert G3. apply grows_frame; autorewrite with hdb; reflexivity.
+    + right. revert G3. apply grows_frame; autorewrite with hdb; reflexivity.
     + split; [exact G3|]. unfold advance. prjs. lia.
 Qed.
 
@@ -1952,12 +2555,12 @@ Proof.
   - split; [|exact Hc]. repeat split; auto.
 Qed.
 
-Lemma accept_grows vh ofp s m K :
+Lemma accept_body_grows vh ofp s m K :
   1 <= h_cur s -> quiet_from s K -> m_round m < K ->
-  let s' := accept vh ofp s m in
+  let s' := accept_body vh ofp s m in
   terminal s' = true \/ (h_cur s <= h_cur s' /\ quiet_from s' K).
 Proof.
-  intros Hc Q Hm s'. subst s'. unfold accept.
+  intros Hc Q Hm s'. subst s'. unfold accept_body.
   destruct (h_rt s); try (right; split; [lia|exact Q]).
   destruct (_ || _); [right; split; [lia|exact Q]|].
   destruct (m_round m =? 0).
@@ -1970,9 +2573,71 @@ Proof.
     destruct G as (_ & B & _). autorewrite with hdb in B. exact B.
   - right. autorewrite with hdb. split; [lia|]. revert Q1. apply quiet_frame; autorewrite with hdb; reflexivity.
   - right. autorewrite with hdb. split; [lia|]. revert Q1. apply quiet_frame; autorewrite with hdb; reflexivity.
+  - right. autorewrite with hdb. split; [lia|]. revert Q1. apply quiet_frame; autorewrite with hdb; reflexivity.
+Qed.
+
+Lemma recover_terminal s : terminal s = true -> terminal (recover_abort s) = true.
+Proof.
+  intro T. unfold recover_abort. destruct (h_rt s); try exact T. cbv zeta.
+  rewrite (terminal_eq s (set_rt s Running)) by (autorewrite with hdb; reflexivity). rewrite T.
+  rewrite (terminal_eq s) by (autorewrite with hdb; reflexivity). exact T.
+Qed.
+
+Lemma accept_grows vh ofp s m K :
+  1 <= h_cur s -> quiet_from s K -> m_round m < K ->
+  let s' := accept vh ofp s m in
+  terminal s' = true \/ (h_cur s <= h_cur s' /\ quiet_from s' K).
+Proof.
+  intros Hc Q Hm s'. subst s'. unfold accept.
+  destruct (h_rt s); try (right; split; [lia|exact Q]).
+  destruct (accept_body_grows vh ofp s m K Hc Q Hm) as [T|[A B]]; cbv zeta in *.
+  - left. apply recover_terminal, T.
+  - right. autorewrite with hdb. split; [exact A|]. revert B. apply quiet_frame; autorewrite with hdb; reflexivity.
 Qed.
 
 (* out_capacity, Accept level *)
+Lemma accept_body_capacity vh ofp s m k :
+  life_ok s -> h_rt s = Running -> 1 <= h_cur s -> 1 <= k ->
+  h_self s < h_n s -> 2 <= h_n s -> busy_shape (h_shape s) ->
+  quiet_from s (h_cur s + k) -> m_round m < h_cur s + k ->
+  h_pending s + k * h_n s <= capacity s ->
+  cap_post (length (h_out s) + k * h_n s) (accept_body vh ofp s m).
+Proof.
+  intros L Hr Hc Hk Hs Hn Busy Q Hm Hp. unfold accept_body. rewrite Hr.
+  destruct (_ || _) eqn:G; [left; split; [exact Hr|lia]|].
+  apply accept_guard_terminal in G as (_ & T & _).
+  destruct (life_not_terminal s L T) as (Hcl & _ & _).
+  destruct (m_round m =? 0).
+  { left. split; [apply abort_running; assumption|].
+    pose proof (abort_out_length s (Some ([m_from m], EAbortNotice))). lia. }
+  set (s1 := store s m).
+  assert (Hr1 : h_rt s1 = Running) by (unfold s1; autorewrite with hdb; exact Hr).
+  assert (Hcl1 : h_closes s1 = 0) by (unfold s1; autorewrite with hdb; exact Hcl).
+  assert (Ho1 : h_out s1 = h_out s) by (unfold s1; autorewrite with hdb; reflexivity).
+  destruct (negb _); [left; split; [exact Hr1|rewrite Ho1; lia]|].
+  destruct (if m_bcast m then _ else _).
+  - apply finalize_capacity.
+    unfold cap_inv, capacity, s1. autorewrite with hdb.
+    repeat split; try assumption.
+    exists k. split; [lia|]. split; [apply store_low_quiet; assumption|]. unfold capacity in Hp. split; lia.
+  - left. split; [apply abort_running; assumption|].
+    pose proof (abort_out_length s1 (Some ([m_from m], EVerify))). rewrite Ho1 in *. lia.
+  - left. split; [apply abort_running; assumption|].
+    pose proof (abort_out_length s1 (Some ([], EBroadcastHash))). rewrite Ho1 in *. lia.
+  - right. autorewrite with hdb. split; [reflexivity|]. split; [exact Hcl1|]. rewrite Ho1. lia.
+Qed.
+
+(* the recovery adds at most the abort notice and never blocks (non-blocking send) *)
+Lemma recover_cap L s : cap_post L s -> h_rt (recover_abort s) = Running /\ length (h_out (recover_abort s)) <= L + 1.
+Proof.
+  intros [[Hr Ho]|(Hr & Hc & Ho)].
+  - rewrite recover_abort_running by exact Hr. auto.
+  - unfold recover_abort. rewrite Hr. cbv zeta. destruct (terminal _).
+    + autorewrite with hdb. split; [reflexivity|lia].
+    + split; [apply abort_running; autorewrite with hdb; [reflexivity|exact Hc]|].
+      pose proof (abort_out_length (set_rt s Running) (Some ([], EPanic))) as X. autorewrite with hdb in X. lia.
+Qed.
+
 Theorem out_capacity vh ofp s m k :
   life_ok s -> h_rt s = Running -> 1 <= h_cur s -> 1 <= k ->
   h_self s < h_n s -> 2 <= h_n s -> busy_shape (h_shape s) ->
@@ -1982,26 +2647,7 @@ Theorem out_capacity vh ofp s m k :
   h_rt s' = Running /\ length (h_out s') <= length (h_out s) + k * h_n s + 1.
 Proof.
   intros L Hr Hc Hk Hs Hn Busy Q Hm Hp s'. subst s'. unfold accept. rewrite Hr.
-  destruct (_ || _) eqn:G; [split; [exact Hr|lia]|].
-  apply accept_guard_terminal in G as (_ & T & _).
-  destruct (life_not_terminal s L T) as (Hcl & _ & _).
-  destruct (m_round m =? 0).
-  { split; [apply abort_running; assumption|].
-    pose proof (abort_out_length s (Some ([m_from m], EAbortNotice))). lia. }
-  set (s1 := store s m).
-  assert (Hr1 : h_rt s1 = Running) by (unfold s1; autorewrite with hdb; exact Hr).
-  assert (Hcl1 : h_closes s1 = 0) by (unfold s1; autorewrite with hdb; exact Hcl).
-  assert (Ho1 : h_out s1 = h_out s) by (unfold s1; autorewrite with hdb; reflexivity).
-  destruct (negb _); [split; [exact Hr1|rewrite Ho1; lia]|].
-  destruct (if m_bcast m then _ else _).
-  - destruct (finalize_capacity vh ofp (length (h_out s) + k * h_n s) (fuel_of s1) s1) as [A B]; [|split; [exact A|lia]].
-    unfold cap_inv, capacity, s1. autorewrite with hdb.
-    repeat split; try assumption.
-    exists k. split; [lia|]. split; [apply store_low_quiet; assumption|]. unfold capacity in Hp. split; lia.
-  - split; [apply abort_running; assumption|].
-    pose proof (abort_out_length s1 (Some ([m_from m], EVerify))). rewrite Ho1 in *. lia.
-  - split; [apply abort_running; assumption|].
-    pose proof (abort_out_length s1 (Some ([], EBroadcastHash))). rewrite Ho1 in *. lia.
+  apply recover_cap, accept_body_capacity; assumption.
 Qed.
 
 (* ------------------------------------------------------------------ *)
@@ -2074,7 +2720,9 @@ Proof.
     repeat split; try lia; try assumption.
     exists 1. split; [lia|]. split; [|cbn; lia].
     intros r j _ _. split; reflexivity. }
-  destruct C as [Hr' _].
+  assert (Hr' : h_rt s' = Running).
+  { destruct C as [[X _]|(X & _)]; [exact X|].
+    apply life_not_panicked in L'. rewrite X in L'. discriminate. }
   unfold drained_inv. autorewrite with hdb.
   rewrite (terminal_eq s' (drain (h_pending s') s')) by reflexivity.
   rewrite S1, S2, S5.
@@ -2125,7 +2773,7 @@ Qed.
 
 (* concrete witnesses: n = 2, two rounds, round 2 = one p2p message to all (the example/xor shape) *)
 Definition xor_shape : shape := mkShape 2 (fun _ => false) (fun r => if r =? 2 then P2PAll else NoP2P).
-Definition xor_msg (from : party) (r : nat) (valid : bool) : msg := mkMsg 7 9 from None r true false 0 5 valid.
+Definition xor_msg (from : party) (r : nat) (valid : bool) : msg := mkMsg 7 9 from None r true false 0 5 valid NoPanic.
 Definition xor_start vh ofp : hstate := new_handler vh ofp 0 2 7 9 xor_shape.
 
 Lemma xor_start_reachable fixed vh ofp : reachable fixed vh ofp 0 2 7 9 xor_shape (xor_start vh ofp).
@@ -2161,13 +2809,54 @@ Proof.
 Qed.
 
 (* ------------------------------------------------------------------ *)
+(* Accept without the deferred recover (as it was before the fix)        *)
+(* ------------------------------------------------------------------ *)
+(* API histories of the handler whose Accept does not recover (Stop guard repaired, so that this is the only difference) *)
+Definition api_step_v0rec (vh : nat -> list N -> N) (ofp : nat -> N) (s : hstate) (e : api) : hstate :=
+  match e with
+  | Accept m => accept_v0 vh ofp s m
+  | Stop => stop true s
+  | Drain k => drain k s
+  end.
+Definition run_api_v0rec (vh : nat -> list N -> N) (ofp : nat -> N) (s : hstate) (es : list api) : hstate :=
+  fold_left (api_step_v0rec vh ofp) es s.
+Definition reachable_v0rec (vh : nat -> list N -> N) (ofp : nat -> N)
+           (self : party) (n : nat) (ssid proto : N) (sh : shape) (s : hstate) : Prop :=
+  exists es, s = run_api_v0rec vh ofp (new_handler vh ofp self n ssid proto sh) es.
+
+(* the peer's round-2 message of the xor session, on which the round code panics *)
+Definition xor_panic_msg : msg := mkMsg 7 9 1 None 2 true false 0 5 true PanicVerify.
+
+(* without the recovery the panic escapes from Accept: the lifecycle invariant fails (crashed, never closed) *)
+Theorem panic_v0_escapes_refuted vh ofp :
+  exists s, reachable_v0rec vh ofp 0 2 7 9 xor_shape s
+            /\ h_rt s = Panicked 3 /\ result_class s = 0 /\ h_closes s = 0.
+Proof.
+  exists (run_api_v0rec vh ofp (xor_start vh ofp) [Accept xor_panic_msg]).
+  split; [exists [Accept xor_panic_msg]; reflexivity|].
+  vm_compute. repeat split.
+Qed.
+
+(* the same history through Accept as it is: clean abort, nobody named, the message stays queued *)
+Theorem panic_contained_witness vh ofp :
+  let s := run_api true vh ofp (xor_start vh ofp) [Accept xor_panic_msg] in
+  reachable true vh ofp 0 2 7 9 xor_shape s
+  /\ h_rt s = Running /\ h_err s = Some ([], EPanic) /\ result_class s = 2 /\ h_closes s = 1
+  /\ h_cur s = 2 /\ h_qp s = [(2, 1, xor_panic_msg)]
+  /\ h_out s = [mkOut None 2 false 0%N; mkOut None 0 false 0%N].
+Proof.
+  cbv zeta. split; [exists [Accept xor_panic_msg]; reflexivity|].
+  vm_compute. repeat split.
+Qed.
+
+(* ------------------------------------------------------------------ *)
 (* Blocking IS reachable when a peer pre-sends all later rounds         *)
 (* ------------------------------------------------------------------ *)
 (* n = 2, seven rounds, every round >= 2 expects one p2p message (no broadcast, so no hash to guess).
    The peer first delivers its messages for rounds 3..7, then round 2: a single Accept then finalizes
    rounds 2,3,4,5 (four messages fill the channel of capacity 2n = 4) and blocks in round 6. *)
 Definition chain_shape : shape := mkShape 7 (fun _ => false) (fun r => if 2 <=? r then P2PAll else NoP2P).
-Definition chain_msg (r : nat) : msg := mkMsg 7 9 1 None r true false 0 5 true.
+Definition chain_msg (r : nat) : msg := mkMsg 7 9 1 None r true false 0 5 true NoPanic.
 Definition presend : list api :=
   [Accept (chain_msg 3); Accept (chain_msg 4); Accept (chain_msg 5); Accept (chain_msg 6); Accept (chain_msg 7);
    Accept (chain_msg 2)].
@@ -2201,10 +2890,15 @@ Definition ex_vh : nat -> list N -> N := fun r _ => N.of_nat (100 + r).
 Definition ex_ofp : nat -> N := fun r => N.of_nat (200 + r).
 Definition ex_start : hstate := new_handler ex_vh ex_ofp 0 3 7 9 ex_shape.
 Definition ex_b (from : party) (r : nat) (bv : N) (valid : bool) : msg :=
-  mkMsg 7 9 from None r true true bv (N.of_nat (10 * r + from)) valid.
+  mkMsg 7 9 from None r true true bv (N.of_nat (10 * r + from)) valid NoPanic.
 Definition ex_p (from : party) (r : nat) (bv : N) (valid : bool) : msg :=
-  mkMsg 7 9 from (Some 0) r true false bv (N.of_nat (50 + 10 * r + from)) valid.
+  mkMsg 7 9 from (Some 0) r true false bv (N.of_nat (50 + 10 * r + from)) valid NoPanic.
 (* a complete honest run of party 0 *)
 Definition ex_honest : list api :=
   [Accept (ex_b 1 2 0 true); Accept (ex_p 1 2 0 true); Accept (ex_p 2 2 0 true); Drain 3; Accept (ex_b 2 2 0 true);
    Accept (ex_b 1 3 102 true); Accept (ex_b 2 3 102 true)].
+(* the same messages with a panic flag *)
+Definition ex_bx (from : party) (r : nat) (bv : N) (pa : panic_at) : msg :=
+  mkMsg 7 9 from None r true true bv (N.of_nat (10 * r + from)) true pa.
+Definition ex_px (from : party) (r : nat) (bv : N) (pa : panic_at) : msg :=
+  mkMsg 7 9 from (Some 0) r true false bv (N.of_nat (50 + 10 * r + from)) true pa.
